@@ -262,16 +262,19 @@ func (pmt *Payment) calculate() error {
 	r := pmt.RegimeDef()
 
 	// Convert empty or invalid currency to the regime's currency
-	if pmt.Currency == currency.CodeEmpty && r != nil {
+	if (pmt.Currency == currency.CodeEmpty || pmt.Currency.Def() == nil) && r != nil {
 		pmt.Currency = r.Currency
 	}
-	if pmt.Currency == currency.CodeEmpty {
+	if pmt.Currency == currency.CodeEmpty || pmt.Currency.Def() == nil {
 		return validation.Errors{
 			"currency": fmt.Errorf("required, unable to determine"),
 		}
 	}
 
 	for i, l := range pmt.Lines {
+		if l == nil {
+			return validation.Errors{"lines": nullRowError(i)}
+		}
 		l.Index = i + 1
 		if err := l.calculate(pmt.Currency, pmt.ExchangeRates); err != nil {
 			return validation.Errors{
